@@ -386,7 +386,7 @@ def main():
         run.run_shards("rv.props.c16", timeout=3400)
         return run.finish(require=("timelines", "notifications_checked", "subscribes", "renewals", "cancels", "writes", "active_subscription_reads"))
     rng = run.rng("c16")
-    n = (3200 if thorough else 250) // (run.shard[1] if thorough else 1) + 1
+    n = (48000 if thorough else 250) // (run.shard[1] if thorough else 1) + 1
     for i in range(n):
         steps = rng.choice([40, 80, 120])
         run.case(("timeline", run.shard[0], i), sample={"kind": "timeline", "steps": steps}, sample_key=("tl", steps))
